@@ -47,7 +47,7 @@ ASSUME = ["refs/kfref.py (textbook Kalman equations, scaled unscented transform 
 SHARDS = {"quick": 4, "thorough": 16}
 BUDGET_S = {"quick": 80, "thorough": 540}
 DECIDING = ["weights_sum_one", "sigma_span", "pred_eq_kf", "post_eq_kf", "post_eq_noredraw", "post_identity", "post_le_prior", "cov_sym_psd",
-            "noobs_mean", "result_roundtrip"]
+            "noobs_mean", "result_roundtrip", "predict_interval"]
 MANIFEST = {"technique": "runtime monitoring: real UnscentedKalmanFilter on stub linear systems, lock-step comparison with a textbook Kalman filter",
             "level_text": "held on every sequence explored (counts in evidence); tolerances are per-step first-order rounding bounds",
             "level_note": "linear stub dynamics/observations replace the environment of the filter only; kfref is trusted"}
@@ -100,6 +100,14 @@ def _gen_f(rng, n):
     else:
         f = g * float(10 ** rng.uniform(-3, 1.5))
     return f, str(kind)
+
+
+def _with_dts(rng, steps):
+    """Step lengths: whole seconds in most sequences, epochs between two seconds (and irregular grids) in a third."""
+    if rng.random() < 0.35:
+        for s_ in steps:
+            s_["dt"] = float(rng.choice([60.0, 0.5, 7.25, 59.999, 300.1, 1.0 / 3.0, 2.5]))
+    return steps
 
 
 def _gen_h(rng, m, n):
@@ -209,7 +217,7 @@ def gen_sequence(rng, quick=True):
                 pr = pr + np.eye(n) * (1e-12 * _n2(pr) - kf.min_eig_sym(pr))
         steps.append({"obs": obs})
     return {"kind": "seq", "x0_int": x0_int, "boundary": rng.random() < 0.4, "n": n, "alpha": alpha, "beta": beta, "kappa": kappa, "resample": resample, "fkind": fkind, "qkind": qkind,
-            "x0": [float(v) for v in x0], "P0": _L(p0), "Q": _L(q), "F": [_L(f) for f in fs], "steps": steps}
+            "x0": [float(v) for v in x0], "P0": _L(p0), "Q": _L(q), "F": [_L(f) for f in fs], "steps": _with_dts(rng, steps)}
 
 
 def _blk(mats):
@@ -376,7 +384,8 @@ def run_sequence(ctx, spec, stats=None):
         dyn.F = fm
         x_prev = np.array(f.est_x, dtype=float, copy=True)
         p_prev = np.array(f.est_p, dtype=float, copy=True)
-        t += 60.0
+        t_prev = t
+        t += float(step.get("dt", 60.0))
         boundary = bool(spec.get("boundary"))
         try:
             if boundary:
@@ -388,6 +397,12 @@ def run_sequence(ctx, spec, stats=None):
                 dyn = fc.dynamics
             else:
                 _call(ctx, w, "predict", f.predict, st.scenario_time(t))
+            # the Kalman prediction of this step is the transition over [previous epoch, new epoch]: that is the interval the
+            # filter has to hand to its dynamics (epochs need not be whole seconds)
+            iv = (getattr(dyn, "intervals", None) or [None])[-1]
+            if iv is not None:
+                ctx.check(iv[0] == t_prev and iv[1] == t, "predict-interval", f"step {k}: predict to t = {t!r} s propagated the sigma points over [{iv[0]!r}, {iv[1]!r}] s, "
+                          f"the step is [{t_prev!r}, {t!r}] s", w, mon="predict_interval")
         except np.linalg.LinAlgError:
             lam = kf.min_eig_sym(p_prev)
             singular = lam <= tp_last + 64 * n * EPS * max(_n2(p_prev), 1e-300)
